@@ -46,9 +46,56 @@ class CounterModel(object):
                 'stop_by_precheck': self.stop_by_precheck, 'evalmon_midrun': self.evalmon_midrun,
                 'stepmon_midrun': self.stepmon_midrun}
 
+    # ---- fault-injecting configuration: an I/O error on a LoggingMonitor file ends the user's program
+    def check_after_io_fault(self, h, op, res):
+        """relaxed narrowly: the exception reached the caller (that is why we are here); the evaluation counter still
+        equals the real calls; each log file holds exactly the in-memory records, or lacks only the one in flight"""
+        from .observe import canon
+        T = dict(self.tags(h), after_io_fault=True)
+        h.run.probe('c04.io_fault_surfaced')
+        s = h.snap()
+        mine = [e for e in h.run.evals if e.owner == h.cur]
+        # (DE2 adds the calls of a whole map when the map returns: the calls of the map in flight, at most nPop, are not in yet)
+        slack = len(s['population']) if h.plan['solver'] == 'DE2' else 0
+        if not (len(mine) - slack <= s['evaluations'] <= len(mine)):
+            h.violate(self.P, 'evaluations_ne_calls', detail='after an injected I/O error in %s: evaluations=%r real cost calls=%d'
+                      % (op['op'], s['evaluations'], len(mine)), **T)
+        import mystic.munge as mg
+        def flat(v):
+            out = []
+            def go(u):
+                if isinstance(u, (tuple, list)):
+                    for i in u: go(i)
+                else: out.append(float(u) if isinstance(u, (int, float)) and not isinstance(u, bool) else u)
+            go(v)
+            return tuple(out)
+        for which in ('_stepmon', '_evalmon'):
+            m = getattr(h.solver, which, None)
+            if type(m).__name__ != 'LoggingMonitor': continue
+            try:
+                step, param, cost = mg.logfile_reader(m._filename, iter=True)
+            except Exception as e:
+                h.violate(self.P, 'log_ne_monitor_after_io_error', detail='%s: logfile_reader raised %s: %s'
+                          % (which, type(e).__name__, str(e)[:160]), **T)
+                continue
+            mx = canon(m._x); my = canon(m._y)
+            j = len(cost)
+            if not (len(my) - 1 <= j <= len(my)):
+                h.violate(self.P, 'log_ne_monitor_after_io_error', detail='%s: the file holds %d records, the monitor %d'
+                          % (which, j, len(my)), **T)
+                continue
+            for i in range(j):
+                if not (feq(flat(canon(param[i])), flat(mx[i])) and feq(flat(canon(cost[i])), flat(my[i]))):
+                    h.violate(self.P, 'log_ne_monitor_after_io_error', detail='%s: file record %d is %r / %r, the monitor holds %r / %r'
+                              % (which, i, param[i], cost[i], mx[i], my[i]), **T)
+                    break
+
     # ---- bookkeeping of monitor installs
     def after_op(self, h, op, res):
         run = h.run
+        if res.get('exc') == 'SimFault':
+            self.check_after_io_fault(h, op, res)
+            return
         if op['op'] in ('set', 'finalize'):
             if h.started:
                 self.set_since_step = True
